@@ -292,6 +292,57 @@ fn verif_tp_validate_table() {
     kani::cover!(v == (1 << 60) + 1, "max_streams boundary value");
 }
 
+// C14 ("the limits the connection then operates under are exactly the ones the peer declared"):
+// the step from a decoded parameter set to the limits handed to the stream manager and the ACK
+// manager. For parameters with arbitrary values, flow_control_limits() reports, for any stream id,
+// the limit RFC 9000 18.2 assigns to that stream: initial_max_stream_data_bidi_local for
+// bidirectional streams opened by the endpoint that SENT the parameters, _bidi_remote for those
+// opened by the receiver, _uni for unidirectional ones; connection data and stream counts one to one;
+// ack_settings() carries max_ack_delay (milliseconds) and ack_delay_exponent unchanged.
+#[cfg_attr(kani, kani::proof)]
+#[cfg_attr(kani, kani::unwind(9))]
+fn verif_tp_flow_control_limits() {
+    use crate::{endpoint, stream::{StreamId, StreamType}};
+    let v: [u32; 6] = kani::any();
+    let mut tp = ClientTransportParameters::default();
+    tp.initial_max_stream_data_bidi_local = InitialMaxStreamDataBidiLocal::new(VarInt::from_u32(v[0])).unwrap();
+    tp.initial_max_stream_data_bidi_remote = InitialMaxStreamDataBidiRemote::new(VarInt::from_u32(v[1])).unwrap();
+    tp.initial_max_stream_data_uni = InitialMaxStreamDataUni::new(VarInt::from_u32(v[2])).unwrap();
+    tp.initial_max_data = InitialMaxData::new(VarInt::from_u32(v[3])).unwrap();
+    tp.initial_max_streams_bidi = InitialMaxStreamsBidi::new(VarInt::from_u32(v[4])).unwrap();
+    tp.initial_max_streams_uni = InitialMaxStreamsUni::new(VarInt::from_u32(v[5])).unwrap();
+    let limits = tp.flow_control_limits();
+    assert!(limits.max_data.as_u64() == v[3] as u64);
+    assert!(limits.max_open_remote_bidirectional_streams.as_u64() == v[4] as u64);
+    assert!(limits.max_open_remote_unidirectional_streams.as_u64() == v[5] as u64);
+    // the sender of these parameters is a client
+    let sender = endpoint::Type::Client;
+    let initiator = if kani::any() { endpoint::Type::Client } else { endpoint::Type::Server };
+    let ty = if kani::any() { StreamType::Bidirectional } else { StreamType::Unidirectional };
+    let n: u64 = kani::any();
+    kani::assume(n < (1 << 60));
+    let id = StreamId::nth(initiator, ty, n).unwrap();
+    let got = limits.stream_limits.max_data(sender, id).as_u64();
+    let want = match ty {
+        StreamType::Unidirectional => v[2],
+        StreamType::Bidirectional if initiator == sender => v[0],
+        StreamType::Bidirectional => v[1],
+    };
+    assert!(got == want as u64);
+    kani::cover!(ty == StreamType::Bidirectional && initiator != sender && v[0] != v[1], "stream opened by the receiver of the parameters, asymmetric limits");
+    kani::cover!(ty == StreamType::Unidirectional, "unidirectional stream");
+
+    let d: u16 = kani::any();
+    kani::assume(d < 1 << 14);
+    let e: u8 = kani::any();
+    kani::assume(e <= 20);
+    tp.max_ack_delay = MaxAckDelay::new(VarInt::from_u16(d)).unwrap();
+    tp.ack_delay_exponent = AckDelayExponent::new(e).unwrap();
+    let ack = tp.ack_settings();
+    assert!(ack.max_ack_delay == core::time::Duration::from_millis(d as u64));
+    assert!(ack.ack_delay_exponent == e);
+}
+
 // NOT covered: the BLOCK decoder TransportParameters::decode_parameters (duplicate detection,
 // unknown ids, role-specific ids). Measured out of reach four times: a 6-byte block
 // `id 1 v  id 1 v` with symbolic ids - no result in 20 min; first id concrete - 20 min; both ids
@@ -308,6 +359,7 @@ fn verif_replay() {
         ("verif_tp_disable_active_migration", verif_tp_disable_active_migration),
         ("verif_tp_stateless_reset_token", verif_tp_stateless_reset_token),
         ("verif_tp_validate_table", verif_tp_validate_table),
+        ("verif_tp_flow_control_limits", verif_tp_flow_control_limits),
         ("verif_tp_max_idle_timeout", verif_tp_max_idle_timeout),
         ("verif_tp_max_udp_payload_size", verif_tp_max_udp_payload_size),
         ("verif_tp_initial_max_data", verif_tp_initial_max_data),
